@@ -18,6 +18,10 @@ I3 == L(<<20, 20, 20>>, <<50, 18>>, <<20, 20, 0>>, <<10, 0, 0>>, <<9, 0, 9>>, Z3
 I4 == L(<<10, 0, 9>>, <<900, 0>>, <<915, 0, 0>>, <<5, 913, 0>>, Z3, Z3)
 
 MCInits == {I0, I1, I2, I3, I4}
+\* deep run of the conserving operations (no mint / burn / issue / raw deposit)
+MCInitsT == {I3}
+ConservingOps == {"Transfer", "TransferToExec", "TransferWithdraw", "ExecTransfer", "ExecFrozen", "ExecActive",
+                  "ExecTransferFrozen"}
 
 \* the same shapes for 2 users / 1 executor (deep runs)
 D(b, x, sb1, sf1) == [bal |-> b, x |-> <<x>>, sb |-> <<sb1>>, sf |-> <<sf1>>]
